@@ -161,7 +161,10 @@ class Report:
                 functions_encoded=sorted(self.functions)[:200], bounds=self.bounds, vacuity_twins=dict(expected_sat=self.twin_expected, got_sat=self.twin_sat),
                 candidate_counterexamples=len(self.violations), reproduced_on_real_build=len(confirmed) + len(known_hits), not_reproduced=len(not_reproduced),
                 known_findings=[k["id"] for k in known_hits.values()], inconclusive=len(self.unknowns), harness_errors=len(self.harness_errors),
-                solver="z3 " + _z3v(), **self.extra),
+                solver="z3 " + _z3v(), second_solver=dict(engine="cvc5 (python wheel)", sampled_every=int(os.environ.get("VERIF_CROSSCHECK_EVERY", "0") or 0),
+                                                            agree=self.stats.get("xcheck_agree", 0), disagree=self.stats.get("xcheck_disagree", 0),
+                                                            cvc5_unknown=self.stats.get("xcheck_cvc5_unknown", 0), errors=self.stats.get("xcheck_error", 0),
+                                                            seconds=round(self.stats.get("xcheck_s", 0.0), 1)), **self.extra),
             assumptions=self.assumptions, wall_s=round(wall, 2), violations=len(confirmed),
         )
         with open(os.path.join(EVID, f"{self.pid}.json"), "w") as f:
